@@ -4,6 +4,7 @@ import (
 	"crypto"
 	"fmt"
 	"io"
+	"os"
 	"strings"
 )
 
@@ -73,7 +74,7 @@ func (fs MtreeFS) CreateSymlink(n NodeSymlink) error {
 
 func (fs MtreeFS) CreateDevice(n NodeDevice) error {
 	attr := []string{mtreeFilename(n.Name)}
-	if n.Mode&modeChar != 0 {
+	if n.Mode&os.ModeCharDevice != 0 {
 		attr = append(attr, "type=char")
 	} else {
 		attr = append(attr, "type=block")
